@@ -38,6 +38,11 @@ pub fn peek() -> Vec<Ev> {
     LOG.lock().unwrap().clone()
 }
 
+/// forget everything recorded after the first `keep` events
+pub fn drop_tail(keep: usize) {
+    LOG.lock().unwrap().truncate(keep);
+}
+
 pub fn end() -> Vec<Ev> {
     RECORDING.store(false, Ordering::SeqCst);
     take()
